@@ -182,7 +182,7 @@ theorem opRemove_refines_allow {o : Opts} {e : Bool} {r : Root} {op : Op} {sop :
     | cons t ts =>
       rw [spec_remove_allow hk (by rw [hpath]; exact hp) (by simp [specOpts, ha]), opRemove_eq,
         skipsRemove_eq]
-      obtain ⟨ns, key, htoks, hkey, hnav⟩ := withPath_nav (o := o) hr.1 hr.2 hp (by simp)
+      obtain ⟨ns, key, htoks, hnav⟩ := withPath_nav (o := o) hr.1 hr.2 hp (by simp)
       rw [htoks, atParent_nav, atParent_nav]
       cases hn : nav (specOpts o) (den r.con) ns with
       | unspec => trivial
